@@ -15,11 +15,16 @@ sched.install_backend()
 sched.install(lazy_io)
 
 ID = "C17"
-RULE = ("cases = (1..3 players: finite or endless float32 audio, chunk size, channels; a control "
-        "history from the main thread over pause/play/stop/spawn on any player and a final "
+RULE = ("cases = (1..3 players: finite or endless audio in a sample format (float32, or integers as "
+        "int32/int16/int8/uint8), chunk size, channels, the container kind, possibly the very container "
+        "object an earlier player was given; a control "
+        "history from the main thread over pause/play/stop/spawn on any player, refused plays, recordings "
+        "nobody plays (never read / partly read / stopped) and a final "
         "close / with-exit / terminate; wait flag; a schedule = list of small ints choosing the "
         "next thread at every synchronisation point, backend call and, in the line tier, every "
-        "source line of lazy_io.py); oracle = per device stream the written chunks are exactly "
+        "source line of lazy_io.py, with bursts (who, n) = the same choice n times so that one thread passes "
+        "many points while the others stand still); oracle = per device stream the device was opened with the "
+        "played sample format, the written chunks are exactly "
         "chunk_size frames and concatenate to a prefix of the zero-padded audio (all of it when "
         "the player was never stopped and the manager waited), close returns under every "
         "schedule (no enabled thread = deadlock, step bound = livelock), afterwards every "
@@ -32,10 +37,26 @@ ASSUMPTIONS = [
   "bounded liveness: close must return within 20000 scheduler steps",
   "endless audio is only combined with wait=False or with a stop of that player in the history",
   "AudioIO.__del__ (a second close at garbage collection) is neutralised by the harness",
+  "integer sample formats play in-range integers; the device's reading of a format constant is PyAudio's table (paFloat32=1, paInt32=2, paInt16=8, paInt8=16, paUInt8=32)",
+  "one container object is shared between players only when it can be iterated again (list, tuple, deque, user sequence), never a one-shot iterator",
 ]
 
 VALS = [0.5, -0.25, 1.0, 0.0, -1.0, 0.125]
 OPS = ["pause", "play", "stop"]
+# sample formats of play(dfmt=...): struct character -> bytes per sample; integer formats play integers
+WIDTH = {"f": 4, "i": 4, "h": 2, "b": 1, "B": 1}
+# what a PyAudio device understands by the format constant it was opened with (pyaudio.paFloat32 = 1,
+# paInt32 = 2, paInt16 = 8, paInt8 = 16, paUInt8 = 32: PortAudio's values, mirrored by the fake backend)
+DEVICE_FORMAT = {1: "f", 2: "i", 8: "h", 16: "b", 32: "B"}
+SHAREABLE = ("list", "tuple", "deque", "sequence")   # containers that can be iterated again
+
+
+def samples(audio, dfmt):
+  """The played values: the drawn floats for 'f', small in-range integers for the integer formats."""
+  if dfmt == "f":
+    return list(audio)
+  vals = [int(v * 8) for v in audio]          # 4 -2 8 0 -8 1
+  return [v % 256 for v in vals] if dfmt == "B" else vals
 
 
 def strat(lines):
@@ -50,19 +71,28 @@ def strat(lines):
                                         chan_kw=st.sampled_from(["channels", "channels", "nchannels"]),
                                         # how finite audio is handed over: a one-shot iterator or a container
                                         container=st.sampled_from(["iter", "iter", "list", "tuple", "deque",
-                                                                   "sequence", "generator"])))
+                                                                   "sequence", "generator"]),
+                                        # the sample format the device is opened with and the chunks are packed in
+                                        dfmt=st.sampled_from(["f", "f", "f", "f", "h", "i", "b", "B"]),
+                                        # play the very container object an earlier player was given (None: an own one)
+                                        same_as=st.sampled_from([None, None, 0, 1, 2])))
     ctl = st.lists(st.one_of(
       st.tuples(st.sampled_from(OPS), st.integers(0, 3)),
       st.tuples(st.sampled_from(OPS), st.integers(0, 3)),
-      st.tuples(st.sampled_from(OPS + ["spawn", "spawn", "refused play"]), st.integers(0, 3)),
+      st.tuples(st.sampled_from(OPS + ["spawn", "spawn", "refused play", "record"]), st.integers(0, 3)),
       st.tuples(st.just("spawn"), st.integers(0, 3))), max_size=8)
     maxs = 40 if tier == "quick" else 120
+    # a schedule entry is one choice (an int) or a burst (who, n): the same choice at the next n choice points,
+    # so that one thread (the controller issuing pause + close, or a player running to its end) passes many
+    # synchronisation points / lines while the others stand still between two of theirs
+    burst = st.tuples(st.sampled_from([0, 0, 1, 2, 3]), st.integers(3, 48 if lines else 12))
+    entry = st.one_of(st.integers(0, 3), st.integers(0, 3), st.integers(0, 5), burst)
     return st.fixed_dictionaries(dict(
       players=st.lists(player, min_size=1, max_size=3),
       extra=st.lists(player, max_size=2),
       ctl=ctl, wait=st.booleans(),
       end=st.sampled_from(["close", "with", "terminate", "close twice", "with, left by an exception"]),
-      schedule=st.lists(st.integers(0, 3), max_size=maxs),
+      schedule=st.lists(entry, max_size=maxs),
       # chunk=None plays with the documented default chunk size (chunks.size, set small for the case);
       # the chunk packing strategy is the documented switch chunks.default
       default_chunk=st.integers(1, 3), strategy=st.sampled_from(["struct", "struct", "array"]),
@@ -98,12 +128,12 @@ def as_container(kind, items):
   return iter(items)
 
 
-def padded(audio, chunk, channels):
+def padded(audio, chunk, channels, dfmt="f"):
   n = chunk * channels
-  data = list(audio)
+  data = samples(audio, dfmt)
   if len(data) % n:
-    data += [0.] * (n - len(data) % n)
-  return struct.pack("%df" % len(data), *data)
+    data += [0] * (n - len(data) % n)
+  return struct.pack("%d%s" % (len(data), dfmt), *data)
 
 
 def normalise(c):
@@ -119,7 +149,7 @@ def normalise(c):
         ctl.append(("spawn", spawned))
         spawned += 1
         nlive += 1
-    elif op == "refused play":
+    elif op in ("refused play", "record"):
       ctl.append((op, i))
     else:
       ctl.append((op, i % nlive))
@@ -132,9 +162,42 @@ def normalise(c):
   return players, extra[:spawned], ctl
 
 
+def flatten(schedule):
+  """The choices of a schedule: ints as they are, bursts (who, n) as n times who."""
+  flat = []
+  for e in schedule:
+    if isinstance(e, (tuple, list)):
+      flat.extend([e[0]] * e[1])
+    else:
+      flat.append(e)
+  return flat
+
+
+class Sched(sched.Sched):
+  """The scheduler of vlib.sched, recording the longest run of scheduled choices that went to one thread."""
+  def __init__(self, *a, **kw):
+    sched.Sched.__init__(self, *a, **kw)
+    self.run_of = None
+    self.run_len = 0
+    self.longest = {}     # thread name -> longest run of consecutive real choices it won
+
+  def pick(self, en, me):
+    before = self.ci
+    nxt = sched.Sched.pick(self, en, me)
+    if self.ci > before:
+      self.run_len = self.run_len + 1 if nxt is self.run_of else 1
+      self.run_of = nxt
+      if self.run_len > self.longest.get(nxt.name, 0):
+        self.longest[nxt.name] = self.run_len
+    else:
+      self.run_of = None
+      self.run_len = 0
+    return nxt
+
+
 def run_case(c):
   players, extra, ctl = normalise(c)
-  S = sched.S = sched.Sched(c["schedule"], lines=c["lines"])
+  S = sched.S = Sched(flatten(c["schedule"]), lines=c["lines"])
   S.register_main()
   out = {}
   threads = []
@@ -148,15 +211,31 @@ def run_case(c):
   type(chunks).size = dflt
   chunks.default = chunks.array if c.get("strategy") == "array" else chunks.struct
 
+  objs = []
+
   def start(io, p):
     audio = p["audio"]
-    if isinstance(audio, tuple) and audio[0] == "record":
+    dfmt = p.get("dfmt", "f")
+    same = p.get("same_as")
+    if same is not None and objs and objs[same % len(objs)] is not None:
+      # the container object an earlier player was given is played again (while that player is still
+      # at it, or after it ended): this player is owed the whole of it as well
+      q, data = objs[same % len(objs)]
+      p = dict(p, audio=q["audio"], container=q["container"], dfmt=q.get("dfmt", "f"), shared=True)
+      audio, dfmt = p["audio"], p["dfmt"]
+    elif isinstance(audio, tuple) and audio[0] == "record":
       data = io.record(chunk_size=audio[1][0])
+      p = dict(p, dfmt="f")    # the input device delivers float32
+      dfmt = "f"
     elif isinstance(audio, tuple):
-      data = itertools.cycle(list(audio[1]))
+      data = itertools.cycle(samples(audio[1], dfmt))
     else:
-      data = as_container(p.get("container", "iter"), list(audio))
+      data = as_container(p.get("container", "iter"), samples(audio, dfmt))
+    shareable = not isinstance(audio, tuple) and p.get("container", "iter") in SHAREABLE
+    objs.append((p, data) if shareable else None)
     chan = {p.get("chan_kw", "channels"): p["channels"]}
+    if dfmt != "f":
+      chan["dfmt"] = dfmt
     if p["chunk"] is None:
       th = io.play(data, **chan)
       p = dict(p, chunk=dflt, default_chunk=True)
@@ -167,18 +246,28 @@ def run_case(c):
     return th
 
   stopped = set()
+  recs = []
   try:
     if tracer:
       sys.settrace(tracer)
     try:
       io = lazy_io.AudioIO(wait=c["wait"])
       if c["end"].startswith("with"):
-        io.__enter__()
+        io = io.__enter__()     # "with AudioIO(...) as io"
       for p in players:
         start(io, p)
       for op, i in ctl:
         if op == "spawn":
           start(io, extra[i])
+        elif op == "record":
+          # a recording nobody plays: opened from the main thread and never read (i = 0), or i samples of it
+          # read there (a started recording with an unread rest), or read and stopped by the user (i = 3)
+          rec = io.record(chunk_size=2)
+          recs.append(rec)
+          if i:
+            rec.take(min(i, 2))
+          if i == 3:
+            rec.stop()
         elif op == "refused play":
           # a play() the backend (odd i: the sample rate) or the format table refuses: the error reaches
           # the caller and the manager stays usable - everything below must still hold
@@ -231,6 +320,9 @@ def run_case(c):
     raise Violation("harness: %d OS threads did not stop" % len(alive))
 
   ctx = "players=%r ctl=%r wait=%r end=%s schedule=%r" % (specs, ctl, c["wait"], c["end"], c["schedule"])
+  died = [(t.name, repr(t.crash)) for t in S.threads if getattr(t, "crash", None) is not None]
+  if died:    # said with every verdict below: a hang is often the consequence of a player that died
+    ctx += "; player threads that died of an exception: %r" % (died,)
   if out.get("abort") == "deadlock":
     raise Violation("close() can never return: every unfinished thread is blocked: %r; %s; last steps %r"
                     % (S.deadlock, ctx, S.trace[-12:]), site="shutdown")
@@ -250,16 +342,24 @@ def run_case(c):
     n = p["chunk"]
     ch = p["channels"]
     dev = fs.kw.get("channels")
+    dfmt = p.get("dfmt", "f")
+    w = WIDTH[dfmt]
+    # the device decodes what it is given by the format it was opened with: it has to be the played one
+    if DEVICE_FORMAT.get(fs.kw.get("format")) != dfmt:
+      raise Violation("player %d plays dfmt=%r but its device was opened with format constant %r (%s); %s"
+                      % (k, dfmt, fs.kw.get("format"),
+                         "PyAudio's %r" % DEVICE_FORMAT[fs.kw.get("format")] if fs.kw.get("format") in DEVICE_FORMAT
+                         else "no PyAudio sample format", ctx), site="sample-format")
     for data, frames in fs.chunks:
-      if frames != n or len(data) != n * ch * 4:
+      if frames != n or len(data) != n * ch * w:
         raise Violation("player %d wrote a chunk of %d frames / %d bytes, chunk_size is %d x %d channels; %s"
                         % (k, frames, len(data), n, ch, ctx))
       # what the device takes from a write is frames x (the channel count it was opened with) samples:
       # anything beyond that in the buffer is lost, anything less is read past the buffer
-      if len(data) != frames * dev * 4:
+      if len(data) != frames * dev * w:
         raise Violation("player %d (%s=%d) wrote %d bytes announced as %d frames to a device opened with "
                         "%r channel(s), which takes %d bytes of them; %s"
-                        % (k, p.get("chan_kw", "channels"), ch, len(data), frames, dev, frames * dev * 4, ctx),
+                        % (k, p.get("chan_kw", "channels"), ch, len(data), frames, dev, frames * dev * w, ctx),
                         site="nchannels-alias")
     got = b"".join(d for d, _ in fs.chunks)
     if isinstance(p["audio"], tuple) and p["audio"][0] == "record":
@@ -267,16 +367,17 @@ def run_case(c):
       exp = struct.pack("%df" % len(need), *need)
       whole = None
     elif isinstance(p["audio"], tuple):
-      cyc = itertools.cycle(p["audio"][1])
-      need = [next(cyc) for _ in range(len(got) // 4)]
-      exp = struct.pack("%df" % len(need), *need)
+      cyc = itertools.cycle(samples(p["audio"][1], dfmt))
+      need = [next(cyc) for _ in range(len(got) // w)]
+      exp = struct.pack("%d%s" % (len(need), dfmt), *need)
       whole = None
     else:
-      exp = padded(p["audio"], n, ch)
+      exp = padded(p["audio"], n, ch, dfmt)
       whole = exp
     if got != exp[:len(got)] or len(got) > len(exp):
       raise Violation("player %d: device received %r, which is not a prefix of the padded audio %r; %s"
-                      % (k, struct.unpack("%df" % (len(got) // 4), got), p["audio"], ctx))
+                      % (k, struct.unpack("%d%s" % (len(got) // w, dfmt), got[:len(got) // w * w]),
+                         samples(p["audio"], dfmt) if whole is not None else p["audio"], ctx))
     if whole is not None and c["wait"] and k not in stopped and got != whole:
       raise Violation("player %d was never stopped and the manager waited, but only %d of %d bytes reached the device; %s"
                       % (k, len(got), len(whole), ctx))
@@ -329,13 +430,30 @@ def run_case(c):
       labels.append("audio:" + p["container"])
       if p["container"] in ("deque", "sequence") and len(p["audio"]) >= p["chunk"] * p["channels"]:
         labels.append("unsliceable sequence of a chunk or more")
+  if any(p.get("dfmt", "f") != "f" for p in specs):
+    labels.append("integer sample format")
+  for p in specs:
+    if p.get("dfmt", "f") != "f" and not isinstance(p["audio"], tuple) and len(p["audio"]) % (p["chunk"] * p["channels"]):
+      labels.append("integer sample format, padded tail")
+      break
+  if any(p.get("shared") for p in specs):
+    labels.append("same container object played by two players")
+  if any(op == "record" for op, _ in ctl):
+    labels.append("a recording nobody plays")
+  if any(op == "record" and i == 0 for op, _ in ctl):
+    labels.append("a recording never read")
   if any(op == "refused play" for op, _ in ctl):
     labels.append("a refused play in the history")
   if any(p.get("chan_kw") == "nchannels" and p["channels"] > 1 for p in specs):
     labels.append("nchannels alias, stereo")
   if S.taken:
     labels.append("pre-empted")
-  return {"nontrivial": S.taken >= 1 and len([op for op, _ in ctl if op != "spawn"]) >= 1,
+  need = 12 if c["lines"] else 5
+  if S.longest.get("main", 0) >= need:
+    labels.append("controller burst (main won %d+ choice points in a row)" % need)
+  if any(v >= need for k, v in S.longest.items() if k != "main"):
+    labels.append("player burst (a player won %d+ choice points in a row)" % need)
+  return {"nontrivial": S.taken >= 1 and len([op for op, _ in ctl if op not in ("spawn", "record")]) >= 1,
           "labels": labels}
 
 
@@ -343,9 +461,18 @@ CLAUSES = [
   Clause("sync_points", strat(False), run_case, quick=6000, thorough=60000,
          floors={"paused at close": .1, "stop then close": .1, "pre-empted": .2, "endless audio": .1,
                  "a refused play in the history": .05, "nchannels alias, stereo": .05,
-                 "unsliceable sequence of a chunk or more": .05},
+                 "unsliceable sequence of a chunk or more": .05,
+                 "controller burst (main won 5+ choice points in a row)": .08,
+                 "player burst (a player won 5+ choice points in a row)": .06,
+                 "integer sample format": .1, "integer sample format, padded tail": .04,
+                 "same container object played by two players": .02,
+                 "a recording nobody plays": .03, "a recording never read": .01},
          doc="schedules pre-empting at lock/event/thread operations and backend calls"),
   Clause("source_lines", strat(True), run_case, quick=1500, thorough=30000,
-         floors={"pre-empted": .15, "paused at close": .05},
+         floors={"pre-empted": .15, "paused at close": .05,
+                 "controller burst (main won 12+ choice points in a row)": .08,
+                 "player burst (a player won 12+ choice points in a row)": .06,
+                 "integer sample format": .1, "same container object played by two players": .02,
+                 "a recording nobody plays": .03},
          doc="schedules pre-empting at every source line of lazy_io.py as well (finer interleavings of run/close/stop)"),
 ]
